@@ -292,7 +292,7 @@ def vecObs (st : St) (c : Cmd) : St × Verdict :=
           (st, .pred (fun g =>
               let R := parseVHits ((kvOf g "hits").getD "-")
               kvOf g "cnt" == some (toString R.length) &&
-              (if exact then validTopK ix.metric k M R else soundHits k M R))
+              (if exact then validTopK ix.metric k M R else clusteredHits ix.metric k M R))
             (if exact then s!"a best-{k} selection of {M.length} admissible vectors with true scores"
              else s!"at most {k} admissible vectors with true scores"))
   | "vtick" =>
